@@ -24,7 +24,9 @@ THEOREMS = [
 RULE = ("seeded random histories: 2-4 leaves (exact family: PersLandscapeExact from diagrams and from explicit "
         "well-formed critical pairs with coincident abscissae between operands, different depth counts, sign "
         "changes, shared-support lists with non-zero end ordinates; approximate family: PersLandscapeApprox from "
-        "diagrams and from explicit values on equal and unequal grids), then 6-12 operations (+, -, neg, c*, *c, "
+        "diagrams and from explicit values= arrays of dtype int64 / float64 on equal and unequal grids, with different depth "
+        "counts in all four dtype combinations and fractional values on the float side; exact landscapes also from "
+        "critical_pairs given as Python ints vs floats), then 6-12 operations (+, -, neg, c*, *c, "
         "/c; approximate also snap_pl, lc_approx, average_approx; plus degree / grid mismatches and division by "
         "0) reusing operands.  dyadic inputs are compared exactly, random doubles within 1e-9.  A history is "
         "non-trivial when a binary operation on two different operands, a re-sampling onto a different grid or "
@@ -126,6 +128,7 @@ def _gen_exact(rng, mode, cls):
     leaves, live = [], []          # live: (index, deg)
     nl = rng.randint(2, 4)
     shared = None
+    int_depths = rng.sample([1, 2, 3, 4], 4)
     if cls == "ends_nonzero":
         shared = (rng.randint(-4, 4) / 2 if mode == "exact" else rng.uniform(-2, 2), 4.0)
     for _ in range(nl):
@@ -139,6 +142,19 @@ def _gen_exact(rng, mode, cls):
                     e = (rng.uniform(-2, 2), rng.choice([0.0, rng.uniform(-2, 2)]))
                 cp.append(_cp_depth(rng, mode, x0=shared[0], total=shared[1], ends=e))
             leaves.append({"kind": "cp", "cp": cp, "hom_deg": 0})
+        elif cls == "ints" and (len(leaves) == 0 or rng.random() < 0.5):
+            # critical_pairs given as Python ints (integer abscissae with gaps 1, 2, 4, integer ordinates)
+            cp = []
+            for _ in range(int_depths.pop()):
+                xs = [rng.randint(-3, 3)]
+                for _ in range(rng.randint(1, 5)):
+                    xs.append(xs[-1] + rng.choice([1, 1, 2, 4]))
+                ys = [0] + [rng.randint(-4, 4) for _ in xs[2:]] + [0]
+                cp.append([[float(x), float(y)] for x, y in zip(xs, ys)])
+            leaves.append({"kind": "cp", "cp": cp, "hom_deg": 0, "ints": True})
+        elif cls == "ints":
+            leaves.append({"kind": "cp", "cp": [_cp_depth(rng, mode, x0=rng.choice([None, 0.0, 1.0]))
+                                                for _ in range(int_depths.pop())], "hom_deg": 0, "ints": False})
         elif rng.random() < 0.45:
             leaves.append({"kind": "dgm", "dgm": _bars(rng, mode), "hom_deg": 0})
         else:
@@ -199,12 +215,15 @@ def _grid(rng, mode):
     return (start, start + rng.uniform(0.5, 6), n)
 
 
-def _vals(rng, mode, n, zero_ends):
-    nd = rng.randint(1, 3)
+def _vals(rng, mode, n, zero_ends, nd=None, integer=False, fractional=False):
+    nd = rng.randint(1, 3) if nd is None else nd
     rows = []
     for _ in range(nd):
-        if mode == "exact":
-            row = [rng.randint(-8, 8) / 4 for _ in range(n)]
+        if integer:
+            row = [rng.randint(-4, 4) for _ in range(n)]
+        elif mode == "exact":
+            # fractional: odd multiples of 1/4, so that a cast to an integer dtype would change every value
+            row = [(2 * rng.randint(-8, 7) + 1) / 4 if fractional else rng.randint(-8, 8) / 4 for _ in range(n)]
         else:
             row = [rng.uniform(-3, 3) for _ in range(n)]
         if zero_ends:
@@ -218,10 +237,20 @@ def _gen_approx(rng, mode, cls):
     leaves, objs = [], []          # objs: (start, stop, n, deg) or None for a failed slot
     nl = rng.randint(2, 4)
     g0 = _grid(rng, mode)
-    for _ in range(nl):
-        g = g0 if (cls == "samegrid" or rng.random() < 0.5) else _grid(rng, mode)
+    depth_counts = rng.sample([1, 2, 3, 4], 4)
+    for li in range(nl):
+        g = g0 if (cls in ("samegrid", "dtypes") or rng.random() < 0.5) else _grid(rng, mode)
         deg = 1 if (cls == "errors" and rng.random() < 0.25) else 0
-        if rng.random() < 0.35 and g[2] >= (3 if mode == "exact" else 4):
+        if cls == "dtypes":
+            # explicit values= arrays of dtype int64 / float64, pairwise different depth counts,
+            # fractional values on the float side
+            dt = rng.choice(["int64", "float64"]) if li else rng.choice(["int64", "int64", "float64"])
+            if li == 1:
+                dt = "float64" if leaves[0]["dtype"] == "int64" or rng.random() < 0.5 else "int64"
+            leaves.append({"kind": "vals", "dtype": dt, "start": g[0], "stop": g[1], "num_steps": g[2], "hom_deg": 0,
+                           "values": _vals(rng, mode, g[2], False, nd=depth_counts[li], integer=(dt == "int64"),
+                                           fractional=True)})
+        elif rng.random() < 0.35 and g[2] >= (3 if mode == "exact" else 4):
             # bars inside the grid so that values is not the 'empty' array (that case is C08's)
             if mode == "exact":
                 h = (g[1] - g[0]) / (g[2] - 1)
@@ -237,7 +266,9 @@ def _gen_approx(rng, mode, cls):
                     bars.append([b, rng.uniform(g[0] + 0.9 * (g[1] - g[0]), g[1])])
             leaves.append({"kind": "dgm", "dgm": bars, "start": g[0], "stop": g[1], "num_steps": g[2], "hom_deg": deg})
         else:
-            leaves.append({"kind": "vals", "values": _vals(rng, mode, g[2], rng.random() < 0.5),
+            dt = "int64" if rng.random() < 0.2 else "float64"
+            leaves.append({"kind": "vals", "dtype": dt,
+                           "values": _vals(rng, mode, g[2], rng.random() < 0.5, integer=(dt == "int64")),
                            "start": g[0], "stop": g[1], "num_steps": g[2], "hom_deg": deg})
         objs.append((g[0], g[1], g[2], deg))
     steps = []
@@ -246,7 +277,13 @@ def _gen_approx(rng, mode, cls):
     def liveidx():
         return [i for i, o in enumerate(objs) if o is not None]
 
-    for _ in range(nsteps):
+    if cls == "dtypes":
+        pairs = [(i, j) for i in range(nl) for j in range(nl) if i != j]
+        rng.shuffle(pairs)
+        for i, j in pairs[:rng.randint(2, 4)]:
+            steps.append({"op": rng.choice(["add", "sub"]), "a": i, "b": j, "nout": 1})
+            objs.append(objs[i])
+    for _ in range(nsteps - len(steps)):
         live = liveidx()
         r = rng.random()
         if cls == "errors" and r < 0.3:
@@ -261,7 +298,7 @@ def _gen_approx(rng, mode, cls):
             objs.append(None)
             continue
         ops = ["add", "add", "sub", "neg", "mul", "rmul", "div"]
-        if cls != "samegrid":
+        if cls not in ("samegrid", "dtypes"):
             ops += ["snap", "snap", "lc", "lc", "avg"]
         op = rng.choice(ops)
         a = _pick(rng, live)
@@ -323,7 +360,9 @@ def generate(rng, tier):
     plan = ([("exact", "exact", "wf")] * 4 + [("exact", "tol", "wf")] * 2 + [("exact", "exact", "errors")]
             + [("exact", "exact", "ends_nonzero")] + [("exact", "tol", "ends_nonzero")]
             + [("approx", "exact", "samegrid")] * 2 + [("approx", "exact", "mixed")] * 3
-            + [("approx", "tol", "mixed")] * 2 + [("approx", "exact", "errors")] + [("approx", "tol", "errors")])
+            + [("approx", "tol", "mixed")] * 2 + [("approx", "exact", "errors")] + [("approx", "tol", "errors")]
+            + [("approx", "exact", "dtypes")] * 2 + [("approx", "tol", "dtypes")]
+            + [("exact", "exact", "ints")] + [("exact", "tol", "ints")])
     cases = []
     for i in range(n * len(plan) // 8):
         fam, mode, cls = plan[i % len(plan)]
@@ -332,7 +371,10 @@ def generate(rng, tier):
 
 
 def search_generate(rng, n):
-    return generate(rng, "quick") * max(1, n // 200)
+    out = []
+    while len(out) < n:
+        out += generate(rng, "quick")
+    return out[:n]
 
 
 def corpus():
@@ -343,6 +385,15 @@ def corpus():
         c = json.loads(p.read_text())
         c.pop("note", None)
         stored.append(c)
+    V = lambda vals, dt: {"kind": "vals", "dtype": dt, "values": vals, "start": 0.0, "stop": 4.0, "num_steps": 5, "hom_deg": 0}
+    B = lambda op, a, b: {"op": op, "a": a, "b": b, "nout": 1}
+    stored.append({"fam": "approx", "mode": "exact", "cls": "corpus/dtypes",
+                   "leaves": [V([[0.0, 1.0, 2.0, 1.0, 0.0], [0.0, 0.0, 1.0, 0.0, 0.0]], "int64"),
+                              V([[0.5, 0.25, 1.5, 0.75, 0.5]], "float64"),
+                              V([[0.25, 0.5, 0.75, 1.25, 1.5], [0.5, 0.5, 0.5, 0.5, 0.5], [0.0, 0.25, 0.0, -0.25, 0.0]], "float64"),
+                              V([[1.0, -2.0, 3.0, -1.0, 2.0]], "int64")],
+                   "steps": [B("add", 0, 1), B("add", 1, 0), B("sub", 0, 1), B("sub", 1, 0), B("add", 2, 3), B("sub", 3, 2),
+                             B("add", 0, 3), B("sub", 3, 0), B("add", 2, 1), B("sub", 1, 2), B("add", 4, 9)]})
     return stored + [
         # the suite's own example shapes
         {"fam": "exact", "mode": "exact", "leaves": [E([[[0.0, 0.0], [1.0, 1.0], [2.0, 0.0]]]),
@@ -431,7 +482,8 @@ def _run_one(c):
                 cp = _ints(cp)
             new(PersLandscapeExact(critical_pairs=cp, hom_deg=deg))
         else:
-            new(PersLandscapeApprox(values=np.array(l["values"], dtype=float), start=l["start"], stop=l["stop"],
+            dt = np.int64 if l.get("dtype") == "int64" else np.float64
+            new(PersLandscapeApprox(values=np.array(l["values"], dtype=dt), start=l["start"], stop=l["stop"],
                                     num_steps=l["num_steps"], hom_deg=deg))
     out = {"leaves": [_snap_obj(o, fam) for o in objs], "fp0": list(fp0), "steps": []}
     for st in c["steps"]:
